@@ -15,7 +15,32 @@ import (
 // runDirectDKG wires the key generators of the built-in schemes to one another through the simulator, without the
 // orchestrator, as a direct user of the MPC API would: `order` is the party list handed to every Init, in exactly
 // that order (the orchestrator always sorts it; the API does not ask for that). It must be called inside a bubble.
-func runDirectDKG(spec RunSpec, w *netsim.World, backend string, order []uint16, t int, psMsgLen int, strategy string, lg *CountLogger) (shares map[uint16][]byte, calls []*netsim.Call, ss *netsim.ScriptSched) {
+// directOpts: a peer that goes silent after a number of messages, and contexts that are cancelled (not expired) at a
+// given step.
+type directOpts struct {
+	Silent       uint16
+	SilentAfter  int // messages the silent peer still sends (-1: nobody is silent)
+	CancelAtStep int // 0: contexts with a deadline of 10 simulated minutes instead
+}
+
+func runDirectDKG(spec RunSpec, w *netsim.World, backend string, order []uint16, t int, psMsgLen int, strategy string, lg *CountLogger, opts ...directOpts) (shares map[uint16][]byte, calls []*netsim.Call, ss *netsim.ScriptSched) {
+	opt := directOpts{SilentAfter: -1}
+	if len(opts) > 0 {
+		opt = opts[0]
+	}
+	if opt.SilentAfter >= 0 {
+		sent := 0
+		w.Filter = func(m *netsim.Msg) []*netsim.Msg {
+			if m.From != opt.Silent {
+				return []*netsim.Msg{m}
+			}
+			if sent++; sent > opt.SilentAfter {
+				w.Faults["crash-drop-out"]++
+				return nil
+			}
+			return []*netsim.Msg{m}
+		}
+	}
 	topic := sha([]byte("direct-dkg"))
 	shares = map[uint16][]byte{}
 	st := &starter{}
@@ -50,14 +75,37 @@ func runDirectDKG(spec RunSpec, w *netsim.World, backend string, order []uint16,
 			kg.OnMsg(inc.Data, inc.Source, bcast)
 		}))
 		st.add(fmt.Sprintf("start:kg:%d", id), id, 3, func() *netsim.Call {
-			ctx, cancel := context.WithTimeout(context.Background(), 10*time.Minute)
+			var ctx context.Context
+			var cancel context.CancelFunc
+			if opt.CancelAtStep > 0 {
+				ctx, cancel = context.WithCancel(context.Background())
+			} else {
+				ctx, cancel = context.WithTimeout(context.Background(), 10*time.Minute)
+			}
 			cancels = append(cancels, cancel)
 			return w.StartCall("KeyGen", id, func() ([]byte, error) { return kg.KeyGen(ctx) })
 		})
 	}
 	sched, ss := scheduler(spec, strategy)
-	w.Propose = st.proposals
+	cancelled := false
+	w.Propose = func() []netsim.Proposal {
+		ps := st.proposals()
+		if opt.CancelAtStep > 0 && !cancelled && st.allStarted() && w.Step >= opt.CancelAtStep {
+			ps = append(ps, netsim.Proposal{Key: "cancel-all", Mandatory: true, Weight: 30, Fire: func() {
+				cancelled = true
+				w.Faults["cancel"]++
+				for _, c := range cancels {
+					c()
+				}
+			}})
+		}
+		return ps
+	}
 	lim := netsim.RunLimits{MaxSteps: 100000, Horizon: 20 * time.Minute, FairAfterSteps: 5000, FairAfter: 2 * time.Minute}
+	if opt.CancelAtStep > 0 {
+		// everybody must have returned shortly after the cancellation
+		lim = netsim.RunLimits{MaxSteps: opt.CancelAtStep + 4000, Horizon: 5 * time.Minute, FairAfterSteps: opt.CancelAtStep + 500, FairAfter: time.Minute}
+	}
 	w.Run(sched, lim, func() bool { return st.allDone(w) && quiet(w) })
 	for _, c := range st.calls() {
 		if w.CallDone(c) && c.Err == nil && c.Panic == "" {
